@@ -13,8 +13,12 @@ import Proofs.XdrDec
 import Proofs.XdrSize
 import Proofs.XdrPrefix
 import Proofs.DodsSrc
+import Proofs.XdrStream
+import Proofs.XdrFuel
+import Proofs.XdrNoFuel
 namespace Pydap.C05
 open Pydap Pydap.Xdr
+open Pydap.Stream (SR srRead absSR)
 
 /-- numpy dtype chars of the property's domain: (kind, itemsize); kinds f(loat) i(nt) u(int) b(ool) S(tring) -/
 def numpyInfo : List (String × Char × Nat) :=
@@ -74,12 +78,28 @@ theorem C05_decoder_prefix_stable (t : Tmpl) (s q : Bytes) (d : Data) (r : Bytes
     (h : decImpl t s = .ok (d, r)) : decImpl t (s ++ q) = .ok (d, r ++ q) :=
   decImpl_ext t s q d r h
 
-/-- **a truncated response never decodes**: no proper prefix of a conforming stream is accepted (with
-    the strict reader of fix 72d8e7c some `read` meets the end of the data; before it, a stream cut at a
-    record boundary or inside a string decoded to fewer rows / shorter strings) -/
+/-- **a truncated response raises**: on every proper prefix of a conforming stream some `read` meets the end
+    of the data — the result is the reader's end-of-data error (`EOFError` of the strict `BytesReader` of fix
+    72d8e7c), not a value and not any other failure (in particular never the model's own `fuel`; before that
+    fix a stream cut at a record boundary or inside a string decoded to fewer rows / shorter strings) -/
 theorem C05_truncated_rejected (t : Tmpl) (d : Data) (p q : Bytes) (h : WF t d = true)
-    (he : XdrSpec.enc t d = p ++ q) (hq : q ≠ []) (x : Data × Bytes) : decImpl t p ≠ .ok x :=
-  decImpl_prefix t d p q h he hq x
+    (he : XdrSpec.enc t d = p ++ q) (hq : q ≠ []) : decImpl t p = .error .short :=
+  decImpl_prefix_short t d p q h he hq
+
+/-- … and through a `StreamReader` (`StopIteration`), for every chunking of the truncated stream -/
+theorem C05_truncated_rejected_stream (t : Tmpl) (d : Data) (cs : List Bytes) (q : Bytes) (h : WF t d = true)
+    (he : XdrSpec.enc t d = cs.flatten ++ q) (hq : q ≠ []) : absSR (decStream t cs) = .error .eof := by
+  rw [decStream_eq, decImpl_prefix_short t d cs.flatten q h he hq]
+  rfl
+
+/-- **fuel adequacy on every stream** (conforming or not): the loops of the model never run out of the fuel
+    `decImpl` passes — the model's own error `fuel` does not occur, every error it reports is one the Python raises -/
+theorem C05_fuel_adequate (t : Tmpl) (s : Bytes) : decImpl t s ≠ .error .fuel :=
+  decImpl_nf t s
+
+/-- the fuel of the model is immaterial on *any* stream: every amount that covers the stream gives `decImpl` -/
+theorem C05_fuel_immaterial (t : Tmpl) (s : Bytes) (f : Nat) (h : fuelFor t s ≤ f) : dec f t s = decImpl t s :=
+  decImpl_fuel t s f h
 
 /-- **Content-Length**: whenever `calculate_size` announces a length it is the length of the body
     (DDS ‖ `Data:\n` ‖ XDR) for every value of the declaration -/
@@ -115,6 +135,75 @@ theorem C05_dds_embedded (dds0 : Bytes) (t : Tmpl) (d : Data)
   rw [e]
   exact splitFirst_at splitPattern (by decide) dds0 (encImpl t d) hno
 
+/-! ### the streaming readers (`StreamReader`: `open_dods_url`, `SequenceProxy.__iter__`)
+
+The decoder touches its stream only through `read n` (`decD`, the interaction tree of `dec`; the harness
+compares the real decoder's logged reads with `decTrace`), and among those reads are reads of length 0:
+`read(k)` of an empty string, `read(-k % 4)` / `read(-n % 4)` when no padding is due, `read(count)` of a
+zero-length array — possibly as the very last read, when the stream is already exhausted. -/
+
+/-- **a read of length 0 never touches the iterator**: in every reader state — the exhausted one included —
+    `StreamReader.read(0)` returns `b""` and leaves the reader as it was -/
+theorem C05_read_zero (r : SR) : srRead 0 r = .ok ([], r) := by
+  obtain ⟨cs, buf⟩ := r
+  cases cs <;> simp [srRead, Stream.srFill]
+
+/-- **the streaming decoder is a function of the concatenated bytes**: over a `StreamReader` fed with *any*
+    chunking `cs` (empty chunks, 1-byte chunks, a boundary anywhere, the stream exhausted before the final
+    zero-length reads) of *any* byte string, conforming or not, `unpack_dap2_data` returns what it returns over
+    a `BytesReader` on `cs.flatten` — the same value and the same bytes left unread, or the same error -/
+theorem C05_stream_chunk_independent (t : Tmpl) (cs : List Bytes) :
+    absSR (decStream t cs) = mapE (decImpl t cs.flatten) :=
+  decStream_eq t cs
+
+/-- … from any reader state (bytes already buffered, chunks still to come): `SequenceProxy.__iter__` starts
+    its reader on the rest of the chunk in which `Data:\n` ended -/
+theorem C05_stream_state_independent (t : Tmpl) (r : SR) :
+    absSR (decStreamFrom t r) = mapE (decImpl t r.abs) :=
+  decStreamFrom_eq t r
+
+theorem C05_stream_two_chunkings (t : Tmpl) (cs cs' : List Bytes) (h : cs.flatten = cs'.flatten) :
+    absSR (decStream t cs) = absSR (decStream t cs') := by
+  rw [C05_stream_chunk_independent, C05_stream_chunk_independent, h]
+
+/-- **the streaming client decodes every conforming response, however it is delivered**: the reference values,
+    exactly the bytes that follow the encoding left in the reader (none when nothing follows: the final reads
+    of length 0 succeed on the exhausted stream) -/
+theorem C05_stream_decoder_total (t : Tmpl) (d : Data) (rest : Bytes) (cs : List Bytes) (h : WF t d = true)
+    (hcs : cs.flatten = XdrSpec.enc t d ++ rest) : absSR (decStream t cs) = .ok (d, rest) := by
+  rw [C05_stream_chunk_independent, hcs, C05_decoder_total t d rest h]
+  rfl
+
+/-- **`open_dods_url`** (`StreamReader(BytesIO(data))`: the chunks are the *lines* of the data part, i.e.
+    decided by where 0x0A bytes happen to fall in the values) returns the DDS and the reference values for
+    every conforming response (`hno`: the separator does not occur inside the DDS, as in `C05_dds_embedded`) -/
+theorem C05_open_dods_url (dds0 : Bytes) (t : Tmpl) (d : Data) (tail : Bytes) (h : WF t d = true)
+    (hno : ∀ i, i < dds0.length →
+      ¬ splitPattern.isPrefixOf ((dds0 ++ splitPattern ++ (XdrSpec.enc t d ++ tail)).drop i) = true) :
+    openDodsUrl t (dds0 ++ splitPattern ++ (XdrSpec.enc t d ++ tail)) = some (dds0, .ok d) := by
+  rw [openDodsUrl_eq]
+  unfold splitBody
+  rw [splitFirst_at splitPattern (by decide) dds0 _ hno]
+  simp [C05_decoder_total t d tail h, mapE, Stream.fstOf]
+
+/-- **`SequenceProxy.__iter__`** (search for `Data:\n` across the chunks, `StreamReader` over the rest,
+    `unpack_sequence` — any columns: strings, Bytes, 16-bit integers, inner sequences) is a function of the
+    concatenated response -/
+theorem C05_seq_proxy_chunk_independent (t : Tmpl) (cs : List Bytes) :
+    seqProxy t cs = seqProxySpec t cs.flatten :=
+  seqProxy_eq t cs
+
+/-- … and yields the reference rows of every conforming sequence response, for every chunking
+    (`hfirst`: the data part is what follows the first `Data:\n` of the response — see
+    `C09_find_pattern_first_occurrence`) -/
+theorem C05_seq_proxy_total (t : Tmpl) (d : Data) (tail : Bytes) (cs : List Bytes) (h : WF t d = true)
+    (hfirst : Stream.afterFirst Stream.dataPattern cs.flatten = some (XdrSpec.enc t d ++ tail)) :
+    seqProxy t cs = .ok d := by
+  rw [seqProxy_eq]
+  unfold seqProxySpec
+  rw [hfirst]
+  simp [C05_decoder_total t d tail h, mapE, Stream.fstOf]
+
 /-! ### non-vacuity -/
 
 def exT : Tmpl := .struct [.base .byte [3], .base .int16 [], .base .string [2],
@@ -139,9 +228,12 @@ example : WF exS exSD = true ∧ (XdrSpec.enc exS exSD).length = 20 := by decide
 example : isShort (decImpl exS ((XdrSpec.enc exS exSD).take 16)) = true := by decide
 example : isShort (decImpl exS ((XdrSpec.enc exS exSD).take 13)) = true := by decide
 example : isShort (decImpl exS ((XdrSpec.enc exS exSD).take 20)) = false := by decide
-example : ∀ x, decImpl exS ((XdrSpec.enc exS exSD).take 16) ≠ .ok x :=
+example : decImpl exS ((XdrSpec.enc exS exSD).take 16) = .error .short :=
   C05_truncated_rejected exS exSD _ ((XdrSpec.enc exS exSD).drop 16) (by decide)
     (List.take_append_drop 16 _).symm (by decide)
+example : absSR (decStream exS [(XdrSpec.enc exS exSD).take 7, [], ((XdrSpec.enc exS exSD).drop 7).take 9])
+    = .error .eof :=
+  C05_truncated_rejected_stream exS exSD _ ((XdrSpec.enc exS exSD).drop 16) (by decide) (by decide) (by decide)
 example : ∃ dds0, ∀ i, i < dds0.length →
     ¬ splitPattern.isPrefixOf ((dds0 ++ splitPattern ++ encImpl exT exD).drop i) = true :=
   ⟨[32], by decide⟩
@@ -199,5 +291,34 @@ open MiniPy in
 example : runItem [("length", .int 5)] Gen.src_dods_paddings "@pad1" = .ok (.int 3) := by rfl
 open MiniPy in
 example : runItem [("k", .int 6), ("n", .int 6)] Gen.src_convert_stream_paddings "@pad2" = .ok (.int 2) := by rfl
+/-- last variable "abcd", "" , Byte[4], Int32[0]: the decoder's last read has length 0 … -/
+def exL : Tmpl := .struct [.base .int32 [], .base .string []]
+def exLD : Data := .tuple [.scalar (.num 10), .scalar (.str [97, 98, 99, 100])]
+example : decTrace exL (XdrSpec.enc exL exLD) = [4, 4, 4, 0] := by decide
+example : decTrace (.struct [.base .string []]) (XdrSpec.enc (.struct [.base .string []]) (.tuple [.scalar (.str [])]))
+    = [4, 0, 0] := by decide
+example : decTrace (.struct [.base .byte [4]]) [0, 0, 0, 4, 0, 0, 0, 4, 1, 2, 3, 4] = [4, 4, 4, 0] := by decide
+example : decTrace (.struct [.base .int32 [0]]) [0, 0, 0, 0, 0, 0, 0, 0] = [4, 4, 0] := by decide
+/-- … and is answered on the exhausted stream, for 1-byte chunks, one chunk, a boundary before the last byte,
+    the line chunking of `BytesIO` (the value 10 is a 0x0A byte) -/
+example : (XdrSpec.enc exL exLD) = [0, 0, 0, 10, 0, 0, 0, 4, 97, 98, 99, 100] := by decide
+example : absSR (decStream exL [[0, 0, 0, 10, 0, 0, 0, 4, 97, 98, 99, 100]]) = .ok (exLD, []) :=
+  C05_stream_decoder_total exL exLD [] _ (by decide) (by decide)
+example : absSR (decStream exL ((XdrSpec.enc exL exLD).map fun b => [b])) = .ok (exLD, []) :=
+  C05_stream_decoder_total exL exLD [] _ (by decide) (by decide)
+example : absSR (decStream exL [[0, 0, 0, 10, 0, 0, 0, 4, 97, 98, 99], [], [100], []]) = .ok (exLD, []) :=
+  C05_stream_decoder_total exL exLD [] _ (by decide) (by decide)
+example : lines (XdrSpec.enc exL exLD) = [[0, 0, 0, 10], [0, 0, 0, 4, 97, 98, 99, 100]] := by decide
+example : openDodsUrl exL ([32] ++ splitPattern ++ (XdrSpec.enc exL exLD ++ [])) = some ([32], .ok exLD) :=
+  C05_open_dods_url [32] exL exLD [] (by decide) (by decide)
+example : srRead 0 ⟨[], []⟩ = .ok ([], ⟨[], []⟩) := C05_read_zero _
+/-- a reader that pulls from its iterator on `read(0)` would fail exactly here: the model's reader state after
+    the last non-empty read is the exhausted one -/
+example : (Stream.srReadMany [4, 4, 4] ⟨[[0, 0, 0, 10, 0, 0, 0, 4, 97, 98, 99, 100]], []⟩).2 = none ∧
+    (Stream.srReadMany [4, 4, 4, 1] ⟨[[0, 0, 0, 10, 0, 0, 0, 4, 97, 98, 99, 100]], []⟩).2 = some .eof := by decide
+example : seqProxy (.seq [.base .int32 [], .base .string []])
+      [[68, 97, 116], [97, 58, 10, 0x5a], [0, 0, 0, 0, 0, 0, 5, 0, 0, 0, 0], [0xa5, 0, 0], [0]]
+    = .ok (.rows [.tuple [.scalar (.num 5), .scalar (.str [])]]) :=
+  C05_seq_proxy_total _ _ [] _ (by decide) (by decide)
 
 end Pydap.C05
